@@ -15,47 +15,59 @@ CONSTANTS IdleUs, SlackUs
 None == 0 - 1
 VARIABLES mode, vanishAt,
           ws, w, finStarted, r, closed,     \* per pipe (functions over the pipes seen so far)
-          droppedStreams, openedAt, plans
-pvars == <<mode, vanishAt, ws, w, finStarted, r, closed, droppedStreams, openedAt, plans>>
+          droppedStreams, openedAt, plans,
+          finished                          \* streams whose client side has returned (done, or failed to connect)
+pvars == <<mode, vanishAt, ws, w, finStarted, r, closed, droppedStreams, openedAt, plans, finished>>
 PInit == mode = "clean" /\ vanishAt = None /\ ws = <<>> /\ w = <<>> /\ finStarted = {} /\ r = <<>> /\ closed = <<>> /\ droppedStreams = {}
-         /\ openedAt = <<>> /\ plans = <<>>
+         /\ openedAt = <<>> /\ plans = <<>> /\ finished = {}
 Reset(m, v) == mode' = m /\ vanishAt' = v /\ ws' = <<>> /\ w' = <<>> /\ finStarted' = {} /\ r' = <<>> /\ closed' = <<>> /\ droppedStreams' = {}
-               /\ openedAt' = <<>> /\ plans' = <<>>
+               /\ openedAt' = <<>> /\ plans' = <<>> /\ finished' = {}
 Get(f, k) == IF k \in DOMAIN f THEN f[k] ELSE 0
 GetS(f, k) == IF k \in DOMAIN f THEN f[k] ELSE "open"
 Put(f, k, v) == [x \in DOMAIN f \cup {k} |-> IF x = k THEN v ELSE f[x]]
 StreamOf(p) == p \div 2
 Open(k, t, clientMode, serverMode) ==
   /\ openedAt' = Put(openedAt, k, t) /\ plans' = Put(plans, k, [c |-> clientMode, s |-> serverMode])
-  /\ UNCHANGED <<mode, vanishAt, ws, w, finStarted, r, closed, droppedStreams>>
+  /\ UNCHANGED <<mode, vanishAt, ws, w, finStarted, r, closed, droppedStreams, finished>>
 WriteStart(p, off, len) == off = Get(ws, p) /\ off = Get(w, p) /\ ws' = Put(ws, p, off + len)
-                          /\ UNCHANGED <<mode, vanishAt, w, finStarted, r, closed, droppedStreams, openedAt, plans>>
+                          /\ UNCHANGED <<mode, vanishAt, w, finStarted, r, closed, droppedStreams, openedAt, plans, finished>>
 WriteDone(p, off) == off = Get(ws, p) /\ w' = Put(w, p, off)
-                     /\ UNCHANGED <<mode, vanishAt, ws, finStarted, r, closed, droppedStreams, openedAt, plans>>
+                     /\ UNCHANGED <<mode, vanishAt, ws, finStarted, r, closed, droppedStreams, openedAt, plans, finished>>
+(* a write call that also finishes the stream: the end may be seen by the reader before the call returns *)
+WriteStartFin(p, off, len) == off = Get(ws, p) /\ off = Get(w, p) /\ ws' = Put(ws, p, off + len) /\ finStarted' = finStarted \cup {p}
+                          /\ UNCHANGED <<mode, vanishAt, w, r, closed, droppedStreams, openedAt, plans, finished>>
+(* vanish mode without a planned instant: the network reports when the server host disappeared *)
+Vanished(t) == mode = "vanish" /\ vanishAt = None /\ vanishAt' = t
+               /\ UNCHANGED <<mode, ws, w, finStarted, r, closed, droppedStreams, openedAt, plans, finished>>
 FinStart(p, total) == total = Get(w, p) /\ total = Get(ws, p) /\ finStarted' = finStarted \cup {p}
-                      /\ UNCHANGED <<mode, vanishAt, ws, w, r, closed, droppedStreams, openedAt, plans>>
+                      /\ UNCHANGED <<mode, vanishAt, ws, w, r, closed, droppedStreams, openedAt, plans, finished>>
 Read(p, off, len, ok) ==
   /\ ok /\ off = Get(r, p) /\ off + len <= Get(ws, p) /\ GetS(closed, p) = "open"
   /\ r' = Put(r, p, off + len)
-  /\ UNCHANGED <<mode, vanishAt, ws, w, finStarted, closed, droppedStreams, openedAt, plans>>
+  /\ UNCHANGED <<mode, vanishAt, ws, w, finStarted, closed, droppedStreams, openedAt, plans, finished>>
 Eos(p, total) ==
   /\ total = Get(r, p) /\ total = Get(ws, p) /\ GetS(closed, p) = "open"
   /\ p \in finStarted \/ StreamOf(p) \in droppedStreams
   /\ closed' = Put(closed, p, "eos")
-  /\ UNCHANGED <<mode, vanishAt, ws, w, finStarted, r, droppedStreams, openedAt, plans>>
+  /\ UNCHANGED <<mode, vanishAt, ws, w, finStarted, r, droppedStreams, openedAt, plans, finished>>
 Max2(a, b) == IF a >= b THEN a ELSE b
 ErrorJustified(p, t) ==
   \/ StreamOf(p) \in droppedStreams
-  \/ /\ mode = "vanish" /\ t >= vanishAt
+  \/ /\ mode = "vanish" /\ vanishAt # None /\ t >= vanishAt
      /\ t <= Max2(vanishAt, Get(openedAt, StreamOf(p))) + IdleUs + SlackUs
 Error(p, t) == ErrorJustified(p, t) /\ closed' = Put(closed, p, "err")
-               /\ UNCHANGED <<mode, vanishAt, ws, w, finStarted, r, droppedStreams, openedAt, plans>>
+               /\ UNCHANGED <<mode, vanishAt, ws, w, finStarted, r, droppedStreams, openedAt, plans, finished>>
 Dropped(p) == droppedStreams' = droppedStreams \cup {StreamOf(p)}
-              /\ UNCHANGED <<mode, vanishAt, ws, w, finStarted, r, closed, openedAt, plans>>
+              /\ UNCHANGED <<mode, vanishAt, ws, w, finStarted, r, closed, openedAt, plans, finished>>
 \* the client has finished its part of stream k
 ClientDone(k) ==
   /\ (mode # "vanish" /\ k \notin droppedStreams /\ k \in DOMAIN plans /\ plans[k].c # "drop_after_write" /\ plans[k].s # "drop") =>
         /\ GetS(closed, 2 * k + 1) = "eos"
         /\ plans[k].s = "echo_len" => GetS(closed, 2 * k) = "eos"
-  /\ UNCHANGED pvars
+  /\ finished' = finished \cup {k}
+  /\ UNCHANGED <<mode, vanishAt, ws, w, finStarted, r, closed, droppedStreams, openedAt, plans>>
+GaveUp(k) == finished' = finished \cup {k} /\ UNCHANGED <<mode, vanishAt, ws, w, finStarted, r, closed, droppedStreams, openedAt, plans>>
+(* when the run is over no client is left waiting: every stream it opened has returned, with its data or with an error
+   ("instead of hanging") *)
+RunEnd == DOMAIN openedAt \subseteq finished /\ UNCHANGED pvars
 =============================================================================
